@@ -18,6 +18,9 @@ import asyncio
 import types
 
 from vlib.h_async import FakeTimeModule, SymLoop, reraise_foreign
+from vlib.h_idle import concrete, install_speedups
+
+install_speedups()
 
 import workflows.plugins.basic as basic
 from workflows import Workflow, step
@@ -104,26 +107,36 @@ def _acquire_scenario(limits, inst, starts, holds) -> bool:
     return _judge(obs, limits, inst, starts, n)
 
 
+class _W(Workflow):
+    """module-level (a class created per path would be re-analysed by CrossHair on every path); the scenario is handed over in
+    instance attributes"""
+
+    @step
+    async def work(self, ev: StartEvent) -> StopEvent:
+        obs, inst, holds, loop = self.sc
+        i = ev.idx
+        k = inst[i]
+        obs.inside[k] += 1
+        if obs.inside[k] > obs.peak[k]:
+            obs.peak[k] = obs.inside[k]
+        obs.entered[i] = loop.time()
+        try:
+            await asyncio.sleep(holds[i])
+        finally:
+            obs.inside[k] -= 1
+        obs.done[i] = True
+        return StopEvent(result=i)
+
+
 def _whole_scenario(limits, inst, starts, holds) -> bool:
     n = len(inst)
     loop = SymLoop()
     obs = _Obs(n)
 
-    class W(Workflow):
-        @step
-        async def work(self, ev: StartEvent) -> StopEvent:
-            i = ev.idx
-            k = inst[i]
-            obs.inside[k] += 1
-            if obs.inside[k] > obs.peak[k]:
-                obs.peak[k] = obs.inside[k]
-            obs.entered[i] = loop.time()
-            try:
-                await asyncio.sleep(holds[i])
-            finally:
-                obs.inside[k] -= 1
-            obs.done[i] = True
-            return StopEvent(result=i)
+    def W(**kw):
+        w = _W(**kw)
+        w.sc = (obs, inst, holds, loop)
+        return w
 
     async def main():
         rt = BasicRuntime()
@@ -218,6 +231,8 @@ def ob_whole_runs(n: int, s1: int, s2: int, h0: int, h1: int) -> bool:
     pre: 1 <= n <= 2 and 0 <= s1 <= 1 and 0 <= s2 <= 1 and 0 <= h0 <= 1 and 0 <= h1 <= 1
     post: _
     """
+    # decide every parameter before the scenario starts (the whole run then executes on concrete values)
+    n, s1, s2, h0, h1 = concrete(n, 1, 2), concrete(s1, 0, 1), concrete(s2, 0, 1), concrete(h0, 0, 1), concrete(h1, 0, 1)
     return _whole_scenario([_lim(n), 1], [0, 0, 1], [0, s1, s2], [h0, h1, 0])
 
 
